@@ -255,6 +255,18 @@ def path_rules(exe, workdir):
         n += 1
         if p.returncode != 0 or not p.stdout or set(_walk(d)) != before3:
             probs.append("-o - for %s: rc=%d stdout=%d bytes new files=%s" % (name, p.returncode, len(p.stdout), sorted(set(_walk(d)) - before3)))
+        # the files hold exactly the items (what -o - prints); and a destination that already EXISTS - longer, shorter or equal - is replaced
+        stdout_text = p.stdout
+        for dest, extra_args in ((os.path.join(d, want), []), (os.path.join(d, "out_here.rs"), ["-o", os.path.join(d, "out_here.rs")])):
+            for old in (b"// stale\n" * 4000, b"x", stdout_text):
+                open(dest, "wb").write(old)
+                p2 = _run_cli([exe, "typify", inp] + extra_args, d)
+                n += 1
+                now = open(dest, "rb").read() if os.path.exists(dest) else None
+                if p2.returncode != 0 or now != stdout_text:
+                    probs.append("existing destination (%d bytes) for %s %s: rc=%d, file holds %s bytes, the items are %d bytes%s" % (
+                        len(old), name, extra_args[:1], p2.returncode, None if now is None else len(now), len(stdout_text),
+                        "" if now is None or now.startswith(stdout_text) is False else " (new text followed by a stale tail)"))
         shutil.rmtree(d, ignore_errors=True)
     # failure: nothing written, existing output untouched
     for how in ("default", "-o"):
